@@ -374,7 +374,7 @@ class IO:
                     raise ValueError(msg)
 
             # Load Lagrangian fields
-            if self.lagrangian_fields:
+            if self.lagrangian_grids:
                 # First loop over and load each of the lagrangian grids
                 for lagrangian_grid_name in self.lagrangian_grids:
                     if f"Lagrangian/{lagrangian_grid_name}/Grid" not in keys:
